@@ -51,6 +51,7 @@ SAN_ENV = {
 DEFAULT = {"variant": "asan", "adapters": True, "quick": {"shards": 8, "n": 1500, "scale": 20, "arg": 0},
            "thorough": {"shards": 16, "n": 12000, "scale": 30, "arg": 0}, "fuzz_s": 0}
 CONFIG = {
+    "C08": {"fuzz_s": 240, "quick": {"shards": 8, "n": 2500, "scale": 30, "arg": 9}, "thorough": {"shards": 16, "n": 15000, "scale": 50, "arg": 16}},
     "C14": {"quick": {"shards": 8, "n": 1200, "scale": 24, "arg": 10}, "thorough": {"shards": 16, "n": 6000, "scale": 60, "arg": 24}},
     "C12": {"quick": {"shards": 8, "n": 3000, "scale": 24, "arg": 8}, "thorough": {"shards": 16, "n": 20000, "scale": 40, "arg": 16}},
     "C13": {"quick": {"shards": 8, "n": 3000, "scale": 24, "arg": 8}, "thorough": {"shards": 16, "n": 20000, "scale": 40, "arg": 16}},
